@@ -1,11 +1,11 @@
 (** Checker for the StatThresholdAnomaliser correspondence (C17). *)
 From Coq Require Import ZArith List Arith Bool.
-From SK Require Import Lib.Base Model.Convert Model.Anomaliser Check.ConvertCheck.
+From SK Require Import Lib.Base Model.Convert Model.Anomaliser Check.ConvertCheck Model.Capa.
 Import ListNotations.
 Open Scope Z_scope.
 
 (** integer statistics of the rows at the given positions of the data [xs] *)
-Inductive stat_kind := StSum | StMax | StMin | StLen | StFirst.
+Inductive stat_kind := StSum | StMax | StMin | StLen | StFirst | StSecondLargest.   (* the last one is axis-sensitive: it needs the segment as a 1-D sample *)
 Definition stat_eval (k : stat_kind) (xs : list Z) (rows : list nat) : Z :=
   let vals := map (nthZ xs) rows in
   match k with
@@ -14,6 +14,7 @@ Definition stat_eval (k : stat_kind) (xs : list Z) (rows : list nat) : Z :=
   | StMin => match vals with [] => 0 | v :: t => minl v t end
   | StLen => Z.of_nat (length rows)
   | StFirst => hd 0 vals
+  | StSecondLargest => match sort_desc vals with _ :: y :: _ => y | x :: _ => x | [] => 0 end
   end.
 
 Record an_case := { ac_n : nat; ac_cpts : list nat; ac_xs : list Z; ac_stat : stat_kind; ac_lo : Z; ac_hi : Z;
